@@ -252,6 +252,42 @@ def run(ck):
         ck.tlc('PathD', (dump % msl).replace('INVARIANT Dump', 'INVARIANT DumpFull'), workers=1, coverage=False,
                simulate=num, depth=msl, timeout=3000, on_case=on_case)
     ck.count('paths', state['n'])
+    # paths that come from the parser (they carry the parser's hidden closed flag), optionally mutated afterwards
+    from . import c02
+    pstate = {'n': 0}
+
+    def on_prog(c):
+        if not c['segs']:
+            return
+        text = pm.render(c['groups'], rnd, 'plain')
+        try:
+            P = sp.parse_path(text)
+        except Exception:      # noqa  (C02's business)
+            return
+        if any(isinstance(sg, sp.Line) and sg.start == sg.end for sg in P):
+            return          # zero-length Lines are outside the property
+        pstate['n'] += 1
+        variants = [('parsed', P)]
+        Q = sp.parse_path(text)
+        Q.append(sp.Line(Q[-1].end + (7 + 3j), Q[-1].end + (9 - 2j)))
+        variants.append(('parsed+append', Q))
+        if len(P) > 1:
+            R = sp.parse_path(text)
+            del R[-1]
+            variants.append(('parsed+del', R))
+        for tag, X in variants:
+            for oi, o in enumerate(OPTSEQ):
+                ck.case(fp=(tag, text, oi), nontrivial=len(X) >= 2)
+                roundtrip(ck, X, o, 0, {'text': text, 'variant': tag}, tag + ' ' + text)
+        ck.sample('parsed-origin', {'text': text, 'd(z)': P.d(use_closed_attrib=True)})
+    pd = 'SPECIFICATION Spec\nCONSTANTS MaxCmds = %d\n MaxRep = %d\nINVARIANT Dump\n'
+    if quick:
+        ck.tlc('PathData', pd % (2, 1), workers=1, coverage=False, on_case=on_prog)
+        ck.tlc('PathData', pd % (4, 2), workers=1, coverage=False, simulate=40, depth=5, on_case=on_prog)
+    else:
+        ck.tlc('PathData', pd % (3, 1), workers=1, coverage=False, on_case=on_prog, timeout=3000)
+        ck.tlc('PathData', pd % (5, 2), workers=1, coverage=False, simulate=400, depth=6, on_case=on_prog)
+    ck.count('parsed_origin_paths', pstate['n'])
     # V
     acc, reach = tracecheck.validate(ck, 'PathData_Trace', 'PathData_Trace.cfg', 'PathData_TraceAt.cfg', traces)
     ck.trace_ok(len(acc))
@@ -276,7 +312,14 @@ def run(ck):
 
 def replay(rec):
     case = rec['case']
-    p = pm.mkpath(case['path'])
+    if isinstance(case['path'], dict):
+        p = sp.parse_path(case['path']['text'])
+        if case['path']['variant'] == 'parsed+append':
+            p.append(sp.Line(p[-1].end + (7 + 3j), p[-1].end + (9 - 2j)))
+        elif case['path']['variant'] == 'parsed+del':
+            del p[-1]
+    else:
+        p = pm.mkpath(case['path'])
     o = case.get('opts', {})
     print('path   :', p)
     if 'text' in case:
